@@ -38,7 +38,12 @@ def ref_active(history):
     return [t for t, c in cnt.items() if c > 0]
 
 
-def scenario(sock, hists):
+BIN_TOPICS = [b"\xff", b"\xfe", b"\xffA", b"\xef\xbf\xbd", b"\x80", b"A\xff", b"\x00", b"\xc3"]
+BIN_FIRSTS = [b"\xff", b"\xfe1", b"\xffA1", b"\xef\xbf\xbd", b"\xef\xbf\xbdA", b"\x80", b"\x80\x80", b"A\xff", b"A", b"\x00", b"\xc3\xa9", b"\xc3"]
+BIN_SYMS = [("s", t) for t in BIN_TOPICS] + [("u", t) for t in BIN_TOPICS]
+
+
+def scenario(sock, hists, firsts=None):
     names = "abc"[:len(hists)]
     ops = ["attach %s SUB" % c for c in names]
     for c, h in zip(names, hists):
@@ -48,7 +53,7 @@ def scenario(sock, hists):
         ops.append("settle")
     else:
         ops += ["recv"] * (sum(len(h) for h in hists) + 1)
-    for f in FIRSTS:
+    for f in (firsts or FIRSTS):
         ops.append("send %s;7061796c6f6164" % W.tok(f))
     # only the FIRST frame is matched: later frames that would continue a topic must not count
     for f, rest in ((b"a", b"bc"), (b"", b"abc"), (b"ab", b"c"), (b"", b"b")):
@@ -70,6 +75,13 @@ def cases(tier, rng):
             ns = rng.randint(2, 3)
             hists = [[rng.choice(SYMS) for _ in range(rng.randint(0, 30 if rng.random() < 0.2 else 6))] for _ in range(ns)]
             out.append("m%d %s" % (k, scenario(sock, hists)))
+            k += 1
+    # topics are octet strings, not text: octets >= 0x80, invalid and valid UTF-8, the octets of U+FFFD, a zero octet
+    for sock in ("PUB", "XPUB"):
+        for _ in range(120 if tier == "quick" else 2000):
+            ns = rng.randint(1, 3)
+            hists = [[rng.choice(BIN_SYMS) for _ in range(rng.randint(1, 6))] for _ in range(ns)]
+            out.append("m%d %s" % (k, scenario(sock, hists, BIN_FIRSTS)))
             k += 1
     # XPUB applies a subscription message when the application receives it, exactly once - whatever publishes happen between
     # its arrival and that recv
@@ -209,7 +221,7 @@ def judge(line, obs, orc):
         want = b"".join(W.msg(m) for m in sends if any(m[0].startswith(a) for a in act))
         got = [tk for op, tk in po if op[0] == "wire" and op[1] == c][0].split("=", 1)[1]
         if got != (want.hex() or "-"):
-            return "subscriber %s with active subscriptions %s received %s, expected %s" % (c, [a.decode() for a in act], got[:120], (want.hex() or "-")[:120])
+            return "subscriber %s with active subscriptions %s received %s, expected %s" % (c, [a.hex() for a in act], got[:120], (want.hex() or "-")[:120])
     if t == "XPUB":
         # every subscription message is handed to the application verbatim, per-peer order preserved
         got = [S.frames_of_tok(tk[5:]) for op, tk in po if op[0] == "recv" and tk.startswith("r=ok:")]
